@@ -611,6 +611,7 @@ def check_valid_at(run: Run, prog: Program) -> None:  # noqa: C901
     oldest, newest = f"{buf}.oldest_timestamp", f"{buf}.newest_timestamp"
     covered = (f"{buf}.count_covered()", "self.count_covered()", "len(self)")
     forms: set[str] = set()
+    all_ok = True
     positions: dict[str, set[str]] = {"datetime": set(), "index": set()}
 
     def in_range(p: Path, kind: str, k: ast.AST) -> tuple[bool, bool]:
@@ -643,6 +644,7 @@ def check_valid_at(run: Run, prog: Program) -> None:  # noqa: C901
                 forms.add(kind)
                 positions[kind].add(u(k))
                 lo, hi = in_range(p, kind, k)
+                all_ok = all_ok and lo and hi
                 run.check(lo and hi, "C09.VALID", at.qual, f"return {u(sub)}",
                           "the buffer is read at a position derived from the key without a two-sided range "
                           "check against the covered range (IndexError on both ends): out-of-range indices "
@@ -666,7 +668,7 @@ def check_valid_at(run: Run, prog: Program) -> None:  # noqa: C901
                     run.check(_is_index_error(p), "C09.VALID", at.qual, f"{k} out of range: raise IndexError",
                               "a position outside the covered range is not rejected with IndexError",
                               node=at.node, file=at.file, path=p.describe())
-    if n < 4:
+    if all_ok and n < 4:
         raise AnalysisError(f"{at.qual}: only {n} rejecting paths found for the two key kinds")
 
 
@@ -788,19 +790,38 @@ def check_idx(run: Run, prog: Program) -> None:
     if not n:
         raise AnalysisError(f"{fn.qual}: no return path")
     # the grid normalize_timestamp snaps to has that origin and step
-    dm = find_calls(nt.node, lambda c: u(c.func) == "divmod")
-    ok = len(dm) == 1 and len(dm[0].args) == 2 and u(dm[0].args[1]) == STEP \
-        and te.ev(dm[0].args[0]) == Poly.atom(nt.params[1]) - Poly.atom(ORIGIN)
+    ok, wit = True, None
+    for p in ordered_paths(prog, nt):
+        dm = p.calls(lambda c: u(c.func) == "divmod")
+        good = len(dm) == 1 and len(dm[0].node.args) == 2 and not dm[0].node.keywords \
+            and u(dm[0].node.args[1]) == STEP \
+            and te.ev(dm[0].node.args[0]) == Poly.atom(nt.params[1]) - Poly.atom(ORIGIN)
+        if not good:
+            ok, wit = False, p
     run.check(ok, "C09.IDX", nt.qual, "divmod(T - _time_index_alignment, _sampling_period)",
               "normalize_timestamp does not snap to the _time_index_alignment + k * _sampling_period grid that "
-              "the slot arithmetic assumes", node=nt.node, file=nt.file)
+              "the slot arithmetic assumes", node=nt.node, file=nt.file,
+              path=wit.describe() if wit is not None else None)
     wr = prog.func(f"{BUF}:OrderedRingBuffer.wrap")
-    rets = [x for x in body_walk(wr.node) if isinstance(x, ast.Return)]
-    ok = len(rets) == 1 and isinstance(rets[0].value, ast.BinOp) and isinstance(rets[0].value.op, ast.Mod) \
-        and u(rets[0].value.left) == wr.params[1] and u(rets[0].value.right) in ("self.maxlen", "len(self._buffer)")
+    rets = [p.ret for p in ordered_paths(prog, wr) if p.exit == "return"]
+    ok = bool(rets) and all(
+        isinstance(r, ast.BinOp) and isinstance(r.op, ast.Mod) and u(r.left) == wr.params[1]
+        and u(r.right) in ("self.maxlen", "len(self._buffer)") for r in rets)
     run.check(ok, "C09.IDX", wr.qual, "wrap(i) = i % maxlen",
               "wrap() is not the slot number modulo the capacity", node=wr.node, file=wr.file)
 
+
+_GUARD = (
+    "        if (\n            timestamp < self._timestamp_oldest\n"
+    "            and self._timestamp_oldest != self._TIMESTAMP_MAX\n        ):\n"
+    "            raise IndexError(\n"
+    "                f\"Timestamp {timestamp} too old (cut-off is at {self._timestamp_oldest}).\"\n"
+    "            )\n\n")
+_MOVE = (
+    "        # Update timestamps\n        prev_newest = self._timestamp_newest\n"
+    "        self._timestamp_newest = max(self._timestamp_newest, timestamp)\n"
+    "        self._timestamp_oldest = self._timestamp_newest - (\n"
+    "            self._full_time_range - self._sampling_period\n        )\n\n")
 
 CONTROLS = [
     ("slot number counted from the UNIX epoch", BUF,
@@ -829,6 +850,39 @@ CONTROLS = [
      "self._timestamp_newest = max(self._timestamp_newest, sample.timestamp)", "C09.NORM"),
     ("datetime branch of at() loses its upper check", MW,
      "                or key > self._buffer.newest_timestamp\n", "", "C09.VALID"),
+    ("too-old rejection really placed after the time bounds moved", BUF,
+     _GUARD + _MOVE, _MOVE + _GUARD, "C09.VALID"),
+    ("too-old rejection uses a non-strict comparison", BUF,
+     "            timestamp < self._timestamp_oldest\n", "            timestamp <= self._timestamp_oldest\n",
+     "C09.VALID"),
+    ("too-old rejection only logs", BUF,
+     "            raise IndexError(\n                f\"Timestamp {timestamp} too old",
+     "            print(\n                f\"Timestamp {timestamp} too old", "C09.VALID"),
+    ("empty-range guard of window() dropped", BUF,
+     "        if start >= end:\n            return np.array([]) if isinstance(self._buffer, np.ndarray) else []\n",
+     "", "C09.VALID"),
+    ("empty-range guard of window() admits equal bounds", BUF,
+     "        if start >= end:\n", "        if start > end:\n", "C09.VALID"),
+    ("window() fills from the unclamped time origin", BUF,
+     "window = self._fill_gaps(window, fill_value, start, self.gaps)",
+     "window = self._fill_gaps(window, fill_value, self._timestamp_oldest, self.gaps)", "C09.VALID"),
+    ("window() returns without filling", BUF,
+     "        if fill_value is not None:\n            window = self._fill_gaps(window, fill_value, start, self.gaps)\n",
+     "", "C09.VALID"),
+    ("window() compares before normalising", BUF,
+     "        start = self.normalize_timestamp(max(start, self.oldest_timestamp))\n",
+     "        start = max(start, self.oldest_timestamp)\n", "C09.NORM"),
+    ("index branch of at() loses its lower check", MW,
+     "if key < -covered or key >= covered:", "if key >= covered:", "C09.VALID"),
+    ("index branch of at() checked against the capacity", MW,
+     "            covered = self._buffer.count_covered()\n", "            covered = self._buffer.maxlen\n", "C09.VALID"),
+    ("at() reads an empty buffer", MW,
+     "        if self._buffer.count_valid() == 0:\n            raise IndexError(\"The buffer is empty.\")\n", "",
+     "C09.VALID"),
+    ("jump-ahead gap starts at the new sample", BUF,
+     "Gap(start=newest + self._sampling_period, end=timestamp)", "Gap(start=timestamp, end=timestamp)", "C09.GAP"),
+    ("fill start index not clamped", BUF,
+     "            start_index = max(start_index, 0)\n", "", "C09.GAP"),
 ]
 
 
